@@ -1,7 +1,7 @@
 (* C02 — message parsing does not depend on how bytes are split into reads. *)
 From Coq Require Import String.
 From Coq Require Import List Strings.Byte NArith Bool Arith.
-Require Import Bytes Show Tables Rd RdProofs HeaderBlock Retry TrailerKeys HeaderNameProofs.
+Require Import Bytes Show Tables Rd RdProofs HeaderBlock Retry TrailerKeys HeaderNameProofs HeaderScan ScanStable.
 Import ListNotations.
 
 (* The read loop of req.ReadHeader / resp.ReadHeader / ext.ReadTrailer
@@ -31,6 +31,30 @@ Theorem C02_header_block_fragmentation_independent : forall f1 f2 n1 n2 r1 r2 o1
   obs bs unit o1 = obs bs unit o2.
 Proof. exact header_block_sched_indep. Qed.
 Print Assumptions C02_header_block_fragmentation_independent.
+
+(* The field scanner itself (ext.HeaderScanner.Next over the whole buffer, compared with `hs_next` / `scan_all` by
+   unit c01.scanner): once the buffer holds a complete header block, its verdict - the fields in order and
+   where the block ends, or "invalid name" - is the verdict on EVERY extension of the buffer.  (On a buffer
+   that ends right behind a field line the scanner cannot know whether a continuation line follows: that is
+   why req/resp/trailer readers scan only complete blocks, the repair of D5.) *)
+Theorem C02_scanner_verdict_is_stable_on_complete_blocks : forall (f n : nat) (b q : bs),
+  header_block_len b = Some n ->
+  match scan_all f b with
+  | SFields fs rest => scan_all f (b ++ q) = SFields fs (rest ++ q)
+  | SInvalid fs => scan_all f (b ++ q) = SInvalid fs
+  | SNeedMore _ => True
+  end.
+Proof. intros f n b q H. apply scan_stable. apply (header_block_cmpl _ _ H). Qed.
+Print Assumptions C02_scanner_verdict_is_stable_on_complete_blocks.
+
+(* ... so the read loop run with the real scanner (wait for a complete block, then scan everything buffered)
+   gives the same fields, the same remaining bytes or the same premature end, however the bytes are cut *)
+Theorem C02_header_fields_fragmentation_independent : forall f1 f2 n1 n2 r1 r2 o1 o2,
+  whole r1 = whole r2 ->
+  read_loop _ _ fields_parse f1 n1 r1 = Some o1 -> read_loop _ _ fields_parse f2 n2 r2 = Some o2 ->
+  obs _ _ o1 = obs _ _ o2.
+Proof. exact fields_sched_indep. Qed.
+Print Assumptions C02_header_fields_fragmentation_independent.
 
 (* body readers only Peek / Skip: without read errors a Peek answers from the bytes alone *)
 Theorem C02_peek_fragmentation_independent : forall i r1 r2,
